@@ -309,7 +309,8 @@ def rich_programs(rng, n, values):
         if kind == "N":
             return "null"
         if kind == "V":
-            return rng.choice(["2days", "3hours", "1years", "10minutes", "4weeks", "5months", "6seconds"])
+            return str(rng.choice([0, 1, 2, 3, 10, 36, 500, 2**31, 2**63 - 1])) + rng.choice(
+                ["microseconds", "milliseconds", "seconds", "minutes", "hours", "days", "weeks", "months", "years"])
         want = {"D": "date", "T": "time", "TS": "timestamp"}[kind]
         return rng.choice([d[0] for d in dates if d[1] == want])
 
@@ -323,6 +324,7 @@ def rich_programs(rng, n, values):
         ("join", "from t | join side:left (from [{k = ~S~, w = ~S~}]) (c == k) | select {c, w}"),
         ("filter", "from t | filter c == ~S~ || c == ~S~ && d > ~I~ | sort {c} | take 3"),
         ("kinds", "from t | select {a = ~D~, b = ~T~, c2 = ~TS~, e = ~B~, n = ~N~, f = ~F~, g = ~F~, i = ~NI~, j = ~I~, k = ~V~}"),
+        ("intervals", "from t | filter d2 > (@2020-01-01 + ~V~) | select {a = d2 + ~V~, b = d2 - ~V~, c2 = ~V~, e = ~V~}"),
         ("datefmt", "from t | select {v = (d2 | date.to_text ~S~), w = ~S~}"),
         ("compare", "from t | select {v = (c | text.lower) == ~S~, w = (c | text.length) > ~I~, x = ~S~ + ~S~}"),
         ("group", "from t | group {c} (aggregate {n = count this, m = max ~S~}) | filter n > ~I~ | derive {l = ~S~}"),
